@@ -443,7 +443,7 @@ func workloads(r *mc.Run) (ws []workload, bound []int) {
 	for _, root := range mc.Pick(r, []int{2}, []int{0, 1, 2}) {
 		for _, a := range pairs {
 			for _, b := range pairs {
-				add(workload{root, [][]cop{a, b}}, mc.Pick(r, 1, 2))
+				add(workload{root, [][]cop{a, b}}, mc.Pick(r, 2, 3))
 			}
 		}
 	}
@@ -457,7 +457,7 @@ func workloads(r *mc.Run) (ws []workload, bound []int) {
 	for root := range roots {
 		for _, a := range pairs6 {
 			for _, b := range pairs6 {
-				add(workload{root, [][]cop{a, b}}, mc.Pick(r, 2, 3))
+				add(workload{root, [][]cop{a, b}}, mc.Pick(r, 3, 4))
 			}
 		}
 	}
@@ -466,7 +466,7 @@ func workloads(r *mc.Run) (ws []workload, bound []int) {
 		for i := 0; i < n; i++ {
 			for j := 0; j < n; j++ {
 				for k := 0; k < n; k++ {
-					add(workload{root, [][]cop{{alphabet[i]}, {alphabet[j]}, {alphabet[k]}}}, mc.Pick(r, 1, 3))
+					add(workload{root, [][]cop{{alphabet[i]}, {alphabet[j]}, {alphabet[k]}}}, mc.Pick(r, 2, -1))
 				}
 			}
 		}
@@ -474,6 +474,19 @@ func workloads(r *mc.Run) (ws []workload, bound []int) {
 		for i := 0; i < n; i++ {
 			for j := 0; j < n; j++ {
 				add(workload{root, [][]cop{{alphabet[i]}, {alphabet[j]}}}, -1)
+			}
+		}
+	}
+	// 4 threads x 1 op (the property speaks of 2-4 goroutines)
+	four := alphabet6
+	for root := range roots {
+		for _, a := range four {
+			for _, b := range four {
+				for _, c := range four {
+					for _, d := range four {
+						add(workload{root, [][]cop{{a}, {b}, {c}, {d}}}, mc.Pick(r, 1, 2))
+					}
+				}
 			}
 		}
 	}
@@ -606,6 +619,7 @@ func main() {
 					r.AddEval(1, 1, 1, 2)
 					return
 				}
+				seamPoints = !r.Quick() // thorough: every Store-seam call is a scheduling point too
 				ws, bounds := workloads(r)
 				if os.Getenv("VERIF_C09_SHARD") == "" {
 					parent(r, len(ws))
@@ -746,7 +760,7 @@ func parent(r *mc.Run, nworkloads int) {
 	r.Count("workloads_enumerated", int64(nworkloads))
 	r.Count("workloads_with_more_than_one_final_outcome", int64(multi))
 	r.Bound("worker_processes", n)
-	r.Bound("preemption_bound", mc.Pick(r, "2x2 over 12 operations: 1; 2x2 over 6 operations: 2; 3x1: 1; 2x1: unbounded", "2x2 over 12 operations: 2; 2x2 over 6 operations: 3; 2x3 and 3x2 over 6 operations: 2; 3x1: 3; 2x1: unbounded"))
+	r.Bound("preemption_bound", mc.Pick(r, "2x2 over 12 operations: 2; 2x2 over 6 operations: 3; 3x1: 2; 4x1 over 6 operations: 1; 2x1: unbounded", "2x2 over 12 operations: 3; 2x2 over 6 operations: 4; 2x3 and 3x2 over 6 operations: 2; 3x1: unbounded; 4x1 over 6 operations: 2; 2x1: unbounded"))
 	r.Bound("roots", mc.Pick(r, "2x2 over 12 operations: full cache; everything else: empty, half full, full", "empty, half full, full"))
 	r.Rule("states = workloads, transitions = complete executions (schedules) of the real Cache under the cooperative scheduler; every schedule within the preemption bound; scheduling points at Lock/Unlock/RLock/RUnlock, every Store-seam call, the eviction callback, operation call and return; non-trivial = executions with at least one preemption")
 	r.Assume("sequential consistency; unsynchronised accesses to plain fields are visible only to the separate free-running -race pass (sampling, a complement)")
